@@ -89,18 +89,24 @@ def stepLine (u : Unit) (line : String) : Unit × String :=
         (u, b01 (deliveryTls cfg (if scheme == "https" then .https else .http) m))
       else (u, "bad-op")
     | _, _ => (u, "bad-op")
-  | ["folder", k, c, n, p] =>
-    match parseBool k, parseBool c, parseBool n, parseBool p with
-    | some k, some c, some n, some p =>
-      match fromFolder k c n p with
+  | ["folder", k, c, n, p, cy] =>
+    match parseBool k, parseBool c, parseBool n, parseBool p, parseBool cy with
+    | some k, some c, some n, some p, some cy =>
+      match fromFolderWith k c n p cy with
       | .fileNotFound => (u, "FileNotFoundError")
       | .contexts cl sv => (u, s!"{showVerify cl} {showVerify sv}")
-    | _, _, _, _ => (u, "bad-op")
+    | _, _, _, _, _ => (u, "bad-op")
   | ["init", mode] => match parseMode mode with
     | some m => (u, showSsl (initSsl m))
     | none => (u, "bad-op")
-  | ["verify", server, ca] => match parseBool server, parseBool ca with
-    | some s, some c => (u, showVerify (verifyMode s c))
+  | ["verify", server, ca, cy] => match parseBool server, parseBool ca, parseBool cy with
+    | some s, some c, some y => (u, showVerify (verifyModeWith s c y))
+    | _, _, _ => (u, "bad-op")
+  | ["accept", cS, ssl, spelling] => match parseServer cS, parseSsl ssl with
+    | some e, some s =>
+      if spelling == "http" || spelling == "https" then
+        (u, b01 (eventSinkAcceptedFor ⟨true, .own, false, .enforced, e, false⟩ s (if spelling == "https" then .https else .http)))
+      else (u, "bad-op")
     | _, _ => (u, "bad-op")
   | _ => (u, "bad-op")
 
